@@ -369,9 +369,13 @@ func checkC09(ix *index, add addFn) {
 			continue
 		}
 		o := ix.ops[i]
-		if o.ret < 0 {
-			if ix.complete {
+		if o.ret < 0 || o.ret >= ix.end() {
+			// (a return during teardown, after the judgement, does not count)
+			if ix.complete && op.CtxTimeoutUs == 0 && disconnectObservable(ix, o.inv) {
 				add("disconnect-returns", fmt.Sprintf("Disconnect (op %d) had not returned when the run was judged", i), nil)
+			}
+			if op.CtxTimeoutUs > 0 {
+				add("disconnect-returns", fmt.Sprintf("Disconnect (op %d) with a %dus deadline had not returned when the run was judged", i, op.CtxTimeoutUs), nil)
 			}
 			continue
 		}
@@ -396,4 +400,19 @@ func checkC09(ix *index, add addFn) {
 		// local Close by the application is an unexpected end as well
 		add("redial", fmt.Sprintf("attempt %d ended and no new dial had started when the run was judged", lastK), nil)
 	}
+}
+
+// disconnectObservable: false when the loop was, at the time of the call, in
+// a phase that can last for ever through no fault of the client (waiting for a
+// CONNACK that never comes without a connect timeout).
+func disconnectObservable(ix *index, inv int) bool {
+	if ix.sc.Cfg.TimeoutUs != 0 {
+		return true
+	}
+	for _, f := range ix.sc.Faults {
+		if f.Kind == "connackNever" || f.Kind == "silentFrom" || f.Kind == "dropB2C" || f.Kind == "dropC2B" {
+			return false
+		}
+	}
+	return true
 }
